@@ -137,15 +137,18 @@ def main(run):
         for v in vals:
             x = Ind(v)
             x.fitness = C()
-            x.fitness.values = tuple(float(t) for t in v)
+            x.fitness.values = tuple(float(t) / scale[0] for t in v)
             pop.append(x)
         return pop
+
+    scale = [1]     # values fed to DEAP are integers / scale[0] (1, 2 or 4: short dyadic floats, exact arithmetic)
 
     def to_int(t):
         out = []
         for x in t:
-            assert float(x) == int(x)
-            out.append(int(x))
+            y = float(x) * scale[0]
+            assert y == int(y), (x, scale[0])
+            out.append(int(y))
         return out
 
     terms, cases = [], []
@@ -184,7 +187,7 @@ def main(run):
         idmap = {id(x): i for i, x in enumerate(pop)}
         ws = [[a * b for a, b in zip(v, w)] for v in vals]          # independent of DEAP
         ws_impl = [to_int(x.fitness.wvalues) for x in pop]
-        base_case = {"kind": "sort", "weights": list(w), "values": [list(v) for v in vals]}
+        base_case = {"kind": "sort", "weights": list(w), "values": [list(v) for v in vals], "values_divided_by": scale[0]}
         if ws_impl != ws:
             run.oracle_violation("weighted values are not value*weight", base_case, observed=ws_impl)
         do_log = log and n >= 1 and len(w) >= 2
@@ -361,7 +364,7 @@ def main(run):
                     {"kind": "splitB", "best": tl(b), "worst": tl(wo), "obj": obj})
             elif kind == "med":
                 (keys,) = args
-                m2 = post * 2
+                m2 = post * 2 * scale[0]
                 assert m2 == int(m2)
                 add("CMedian %s %s" % (czl(to_int(keys)), cz(int(m2))), {"kind": "median", "keys": to_int(keys)})
             elif kind == "dom":
@@ -481,9 +484,7 @@ def main(run):
     for n in range(1, 5):
         for m in range(1, 4):
             total = len(wo[n]) ** m
-            limit = total if (T or total <= 6000) else 1200
-            if T and total > 150000:
-                limit = 60000
+            limit = total if total <= (70000 if T else 6000) else (60000 if T else 1200)
             for vals in sample_or_all(order_type_pops(n, m), total, limit):
                 if n <= 2 or (T and n * m <= 4):
                     for sg in sign_vectors[m]:
@@ -491,9 +492,7 @@ def main(run):
                 else:
                     sort_case(next_signs(m), vals)
             total = 3 ** (m * n)
-            limit = total if (total <= 7000 or (T and total <= 600000)) else (20000 if T else 1200)
-            if total > 600000:
-                limit = 40000 if T else 1200
+            limit = total if total <= (70000 if T else 7000) else (60000 if T else 1200)
             for vals in sample_or_all(grid_pops(n, m), total, limit):
                 sort_case(next_signs(m), list(vals))
 
@@ -531,9 +530,11 @@ def main(run):
         w, vals = random_pop()
         n = len(vals)
         ks = sorted(set([0, 1, n // 2, max(0, n - 1), n, n + 1, rng.randint(0, n + 1)]))
+        scale[0] = rng.choice([1, 1, 2, 4])
         sort_case(w, vals, ks)
         if len(w) >= 2 and it % 2 == 0:
             trace_run(w, vals)
+        scale[0] = 1
     direct_helpers(run.scale(700, 7000))
 
     run.extra_cov["case_kinds"] = {}
